@@ -23,6 +23,7 @@ func gateCmd(args []string) {
 	corpus := fs.String("corpus", "examples", "corpora (see lifecycle)")
 	versions := fs.String("versions", "", "comma list of versions; the empty item means 'not configured'")
 	out := fs.String("out", "", "output JSON")
+	late := fs.Bool("late", false, "construct the checkers first and set the version on the context afterwards")
 	fs.Parse(args)
 	hx.Init()
 	fset := token.NewFileSet()
@@ -54,7 +55,7 @@ func gateCmd(args []string) {
 	res := map[string][]wj{}
 	for _, v := range strings.Split(*versions, ",") {
 		ctx := linter.NewContext(fset, hx.Sizes)
-		if v != "" {
+		if v != "" && !*late {
 			ctx.SetGoVersion(v)
 		}
 		var cs []*linter.Checker
@@ -62,6 +63,10 @@ func gateCmd(args []string) {
 			c, err := linter.NewChecker(ctx, in)
 			hx.Must(err)
 			cs = append(cs, c)
+		}
+		if v != "" && *late {
+			// Context.SetGoVersion "adjusts the target Go language version": also legal after the checkers exist
+			ctx.SetGoVersion(v)
 		}
 		var ws []wj
 		var lastPkg interface{}
